@@ -72,8 +72,8 @@ theorem asDuration_toInt (s : BitVec 64) (n : BitVec 32) :
     · simp only [hr, iff_false]
       split at e2 <;> omega
   simp only [inInt64, clamp64, exactNanos, minInt64, maxInt64] at e2' ⊢
-  simp only [bne_iff_ne, ne_eq, Bool.or_eq_true, Bool.and_eq_true, BitVec.slt_iff_toInt_lt, ← BitVec.toInt_inj,
-    BitVec.reduceToInt, e2']
+  simp only [bne_iff_ne, beq_iff_eq, ne_eq, Bool.or_eq_true, Bool.and_eq_true, Bool.not_eq_true', Bool.not_eq_eq_eq_not,
+    Bool.not_true, BitVec.slt_iff_toInt_lt, BitVec.sle_iff_toInt_le, ← BitVec.toInt_inj, BitVec.reduceToInt, e2']
   simp only [Int.max_def, Int.min_def]
   repeat' split
   all_goals first | omega | (simp only [BitVec.reduceToInt] <;> omega)
